@@ -121,7 +121,8 @@ class ColorMatrix:
             return None
         raw_color = []
         for param in color:
-            if param < 0.0:
+            if not param >= 0.0:
+                # Negative, or not a number at all: nothing to round.
                 param = 0
             elif param > 65535.0:
                 param = 65535
